@@ -19,6 +19,7 @@ import (
 	"pgregory.net/rapid"
 
 	"verif/internal/corpus"
+	"verif/internal/custom"
 	"verif/internal/evid"
 	"verif/internal/gen"
 	"verif/internal/refjq"
@@ -98,22 +99,35 @@ func runQuery(q *gojq.Query, input any) run.Result {
 }
 
 func check(c concCase, repeat int) (msg, discard string) {
+	if strings.Contains(c.Query, "cf_") && strings.HasPrefix(c.Mode, "query") {
+		c.Mode = "code-shared-input" // (*Query).Run compiles without options: no custom functions there
+	}
 	q, err := gojq.Parse(c.Query)
 	if err != nil {
 		return "", "parse-error"
 	}
-	code, err := gojq.Compile(q)
+	var opts []gojq.CompilerOption
+	if strings.Contains(c.Query, "cf_") {
+		opts = custom.Funcs // only where they are called: `builtins` lists them
+	}
+	code, err := gojq.Compile(q, opts...)
 	if err != nil {
 		return "", "compile-error"
 	}
-	want := model.Run(q, univ.Copy(c.Input.X), nil, fuel, maxOuts)
+	mq := q
+	if strings.Contains(c.Query, "cf_") {
+		if mq, err = gojq.Parse(custom.Defs + c.Query); err != nil {
+			return "", "parse-error"
+		}
+	}
+	want := model.Run(mq, univ.Copy(c.Input.X), nil, fuel, maxOuts)
 	if d := want.Discard(); strings.HasPrefix(d, "resource") || d == "fuel" {
 		return "", d // only the resource guards matter here; the model's language limits do not
 	}
 	// the baseline runs on its own compiled Code: the Code used concurrently
 	// below is fresh, so that lazily initialised per-Code state is first
 	// touched by several goroutines at once
-	baseCode, err := gojq.Compile(q)
+	baseCode, err := gojq.Compile(q, opts...)
 	if err != nil {
 		return "", "compile-error"
 	}
@@ -130,7 +144,7 @@ func check(c concCase, repeat int) (msg, discard string) {
 	for round := 0; round < repeat; round++ {
 		if round > 0 {
 			// a fresh Code for every round
-			if code, err = gojq.Compile(q); err != nil {
+			if code, err = gojq.Compile(q, opts...); err != nil {
 				return "", "compile-error"
 			}
 		}
@@ -170,7 +184,7 @@ func check(c concCase, repeat int) (msg, discard string) {
 					case strings.HasPrefix(c.Mode, "query"):
 						res = runQuery(q, in)
 					default: // compile-each: concurrent Compile of the shared query
-						cc, err := gojq.Compile(q)
+						cc, err := gojq.Compile(q, opts...)
 						if err != nil {
 							res.Panic = "compile failed concurrently: " + err.Error()
 						} else {
@@ -351,7 +365,7 @@ func TestC06(t *testing.T) {
 		q := rapid.SampledFrom(templates).Draw(t, "q")
 		if rapid.IntRange(0, 2).Draw(t, "mutating") == 0 {
 			// the structure-sharing programs of C05 (no $v here)
-			if m := rapid.SampledFrom(gen.MutatingPrograms).Draw(t, "mq"); !strings.Contains(m, "$v") {
+			if m := rapid.SampledFrom(append(append([]string{}, gen.MutatingPrograms...), custom.Programs...)).Draw(t, "mq"); !strings.Contains(m, "$v") {
 				q = m
 			}
 		}
